@@ -8,7 +8,7 @@ import os
 import time
 import struct
 try:
-    import importlib
+    import importlib.util
 
     try:
         PY_MAGIC_NUMBER = importlib.util.MAGIC_NUMBER
